@@ -22,6 +22,7 @@ import NanoVerif.Model.ConfigFlow
 import NanoVerif.Model.ReuseSeq
 import NanoVerif.Model.DisjointSet
 import NanoVerif.Model.GlueSvg
+import NanoVerif.Model.GradientParse
 /-
 Correspondence driver.  One JSON object per input line: {"op": ..., ...}; one JSON object per
 output line.  Run: `lake env lean --run Driver.lean < ops.jsonl`.
@@ -443,6 +444,25 @@ def dispatch (op : String) (j : Json) : Except String Json := do
       let t ← getTree (← field j "tree")
       let l := t.glyphs Aff.id
       return obj [("dfs", Json.arr (l.map fun (n, a) => Json.arr #[Json.str n, jAff a]).toArray)]
+  | "parse-linear" =>
+      let vb ← getRect (← field j "vb")
+      let asc ← getQ (← field j "asc")
+      let desc ← getQ (← field j "desc")
+      let w ← getQ (← field j "width")
+      let u ← getAff (← field j "user")
+      let bbox ← match fieldOpt j "bbox" with
+        | some .null => pure none
+        | some b => do pure (some (← getRect b))
+        | none => pure none
+      let gt ← match fieldOpt j "gt" with
+        | some .null => pure none
+        | some g => do pure (some (← getAff g))
+        | none => pure none
+      let p0 ← getPt (← field j "p0")
+      let p1 ← getPt (← field j "p1")
+      match getGradientTransform vb asc desc w u bbox gt with
+      | .ok t => return obj [("t", jAff t), ("g", jLin (parseLinear p0 p1 t))]
+      | .error e => return obj [("err", Json.str (vErr e))]
   | "viewbox-space" =>
       let vb ← getRect (← field j "vb")
       let asc ← getQ (← field j "asc")
